@@ -1,0 +1,96 @@
+//go:build verif
+
+// Contracts for the deductive checker in /verif (govc). Comment-only; ignored without the
+// "verif" build tag.
+//
+// Value mode: []byte is a byte string (nil distinguished from empty), string(key) is str(key).
+// pkv.m[p] is the content of the parent store p as a map from key strings to byte strings, nil = absent
+// (what p.Get returns). The view of a cache-wrapped store is
+//     view(k) = cache has k ? cache[k].value : pkv.m[parent][k]
+// and the representation invariant `cwf` says that a cached entry that is not dirty is a faithful copy
+// of the parent's entry, a deleted entry holds nil, and every key awaiting sorting is dirty.
+
+package cachekv
+
+//@ ghost pkv.m (Array Iface (Array Str Bytes))
+
+//@ guarded Store.cache, Store.unsortedCache, Store.sortedCache by Store.mtx
+
+//@ invariant cwf: store.cache != nil && store.unsortedCache != nil && (forall k string :: has(store.cache, k) ==> (store.cache[k] != nil && (store.cache[k].deleted ==> store.cache[k].value == nil && store.cache[k].dirty) && (store.cache[k].dirty && !store.cache[k].deleted ==> store.cache[k].value != nil) && (!store.cache[k].dirty ==> store.cache[k].value == pkv.m[store.parent][k]))) && (forall k string :: has(store.unsortedCache, k) ==> has(store.cache, k) && store.cache[k].dirty)
+
+// The parent store as a map (KVStore.Get/Set/Delete at call sites in this package): /verif/spec/extern/cachekv_parent.go.txt
+
+// Only entry point that mutates store.cache: afterwards the view at key is `value`, every other key's view
+// is untouched, and the lock must be held.
+//@ func (store *Store) setCacheValue(key, value []byte, deleted bool, dirty bool)
+//@   props C15
+//@   requires store.mtx == 1 && store.cache != nil && store.unsortedCache != nil
+//@   modifies elems(store.cache), elems(store.unsortedCache)
+//@   ensures [entry] has(store.cache, str(key)) && store.cache[str(key)].value == value && store.cache[str(key)].deleted == deleted && store.cache[str(key)].dirty == dirty && fresh(store.cache[str(key)])
+//@   ensures [others] forall k string :: k != str(key) ==> (has(store.cache, k) == old(has(store.cache, k)) && store.cache[k] == old(store.cache[k]))
+//@   ensures [unsorted] forall k string :: has(store.unsortedCache, k) == (old(has(store.unsortedCache, k)) || (dirty && k == str(key)))
+
+// C15: Get returns the overlay view at key, changes no key's view and not the parent.
+//@ func (store *Store) Get(key []byte) (value []byte)
+//@   props C15
+//@   requires store.mtx == 0
+//@   uses cwf
+//@   modifies elems(store.cache), elems(store.unsortedCache), store.mtx
+//@   ensures [view] value == old(ite(has(store.cache, str(key)), store.cache[str(key)].value, pkv.m[store.parent][str(key)]))
+//@   ensures [stable] forall k string :: ite(has(store.cache, k), store.cache[k].value, pkv.m[store.parent][k]) == old(ite(has(store.cache, k), store.cache[k].value, pkv.m[store.parent][k]))
+//@   ensures [parent] pkv.m == old(pkv.m)
+//@   ensures [unlocked] store.mtx == 0
+
+// C15: Set makes the view at key equal to value and leaves every other key and the parent alone.
+//@ func (store *Store) Set(key []byte, value []byte)
+//@   props C15
+//@   requires store.mtx == 0
+//@   uses cwf
+//@   modifies elems(store.cache), elems(store.unsortedCache), store.mtx
+//@   ensures [view] has(store.cache, str(key)) && store.cache[str(key)].value == value && value != nil
+//@   ensures [others] forall k string :: k != str(key) ==> ite(has(store.cache, k), store.cache[k].value, pkv.m[store.parent][k]) == old(ite(has(store.cache, k), store.cache[k].value, pkv.m[store.parent][k]))
+//@   ensures [parent] pkv.m == old(pkv.m)
+//@   ensures [unlocked] store.mtx == 0
+
+// C15: Delete makes the view at key absent (a tombstone) and leaves every other key and the parent alone.
+//@ func (store *Store) Delete(key []byte)
+//@   props C15
+//@   requires store.mtx == 0
+//@   uses cwf
+//@   modifies elems(store.cache), elems(store.unsortedCache), store.mtx
+//@   ensures [view] has(store.cache, str(key)) && store.cache[str(key)].value == nil && store.cache[str(key)].deleted
+//@   ensures [others] forall k string :: k != str(key) ==> ite(has(store.cache, k), store.cache[k].value, pkv.m[store.parent][k]) == old(ite(has(store.cache, k), store.cache[k].value, pkv.m[store.parent][k]))
+//@   ensures [parent] pkv.m == old(pkv.m)
+//@   ensures [unlocked] store.mtx == 0
+
+// C15: Has is "the view at key is present".
+//@ func (store *Store) Has(key []byte) (r bool)
+//@   props C15
+//@   requires store.mtx == 0
+//@   uses cwf
+//@   modifies elems(store.cache), elems(store.unsortedCache), store.mtx
+//@   ensures [view] r == (old(ite(has(store.cache, str(key)), store.cache[str(key)].value, pkv.m[store.parent][str(key)])) != nil)
+//@   ensures [parent] pkv.m == old(pkv.m)
+//@   ensures [unlocked] store.mtx == 0
+
+// C15: after Write the parent holds exactly the overlaid view, no other store changed, and the wrapper is clean.
+// Loop 1 collects the dirty keys (range over the cache map), sort.Strings permutes them, loop 2 writes each.
+//@ func (store *Store) Write()
+//@   props C15
+//@   requires store.mtx == 0
+//@   uses cwf
+//@   modifies pkv.m, store.cache, store.unsortedCache, store.sortedCache, store.mtx
+//@   loop 1 frame
+//@   loop 1 invariant 0 <= iterpos(1) && iterpos(1) <= iterlen(1) && store.mtx == 1 && fresh(keys)
+//@   loop 1 invariant forall j int :: 0 <= j && j < len(keys) ==> has(store.cache, keys[j]) && store.cache[keys[j]].dirty
+//@   loop 1 invariant forall i int :: 0 <= i && i < iterpos(1) && store.cache[iterkey(1, i)].dirty ==> (exists j int :: 0 <= j && j < len(keys) && keys[j] == iterkey(1, i))
+//@   loop 2 invariant 0 - 1 <= #rangeindex && #rangeindex < len(keys) && store.mtx == 1 && fresh(keys)
+//@   loop 2 invariant forall j int :: 0 <= j && j < len(keys) ==> has(store.cache, keys[j]) && store.cache[keys[j]].dirty
+//@   loop 2 invariant forall k string :: has(store.cache, k) && store.cache[k].dirty ==> (exists j int :: 0 <= j && j < len(keys) && keys[j] == k)
+//@   loop 2 invariant forall j int :: 0 <= j && j <= #rangeindex ==> pkv.m[store.parent][keys[j]] == store.cache[keys[j]].value
+//@   loop 2 invariant forall k string :: pkv.m[store.parent][k] == old(pkv.m[store.parent][k]) || (has(store.cache, k) && store.cache[k].dirty && pkv.m[store.parent][k] == store.cache[k].value)
+//@   loop 2 invariant pkv.m == upd(old(pkv.m), store.parent, pkv.m[store.parent])
+//@   ensures [flushed] forall k string :: pkv.m[store.parent][k] == old(ite(has(store.cache, k), store.cache[k].value, pkv.m[store.parent][k]))
+//@   ensures [others] pkv.m == upd(old(pkv.m), store.parent, pkv.m[store.parent])
+//@   ensures [clean] forall k string :: !has(store.cache, k) && !has(store.unsortedCache, k)
+//@   ensures [unlocked] store.mtx == 0
